@@ -156,17 +156,48 @@ impl Drop for Drv { fn drop(&mut self) { let _ = self.child.kill(); let _ = self
 // reference state
 
 #[derive(Clone)]
-struct RefFile { chunks: BTreeMap<usize, Vec<u8>>, eof: usize, ftype: Vec<u8>, aux: Vec<u8>, access: Vec<u8>, locked: bool }
+pub struct RefFile { chunks: BTreeMap<usize, Vec<u8>>, eof: usize, ftype: Vec<u8>, aux: Vec<u8>, access: Vec<u8>, locked: bool }
 
-struct World {
-    cfg: VolCfg,
-    disk: Box<dyn DiskFS>,
-    files: BTreeMap<String, RefFile>,
-    dirs: BTreeSet<String>,
-    chunk_len: usize,
-    hist: Vec<String>,
+/// generic record of the operation just executed, for the concrete-model ties in fs_<x>.rs
+#[derive(Clone)]
+pub struct OpRecord {
+    /// put | delete | rename | lock | unlock | retype | mkdir | protect | unprotect
+    pub kind: &'static str,
+    /// path exactly as passed to the a2kit API, and its canonical form
+    pub spelled: String,
+    pub cpath: String,
+    /// rename: new name as passed; retype: type string; protect: flags "r w d"
+    pub arg2: String,
+    /// retype: sub type / aux string
+    pub arg3: String,
+    /// put: the file image fields as passed
+    pub fs_type: Vec<u8>, pub aux: Vec<u8>, pub access: Vec<u8>, pub created: Vec<u8>, pub modified: Vec<u8>, pub eof: usize,
+    pub chunks: BTreeMap<usize, Vec<u8>>,
+    /// Ok, or the error text of the real code ("PANIC" for a panic)
+    pub result: Result<(), String>,
+}
+impl OpRecord {
+    fn new<T>(kind: &'static str, spelled: &str, cpath: &str, arg2: &str, arg3: &str, res: &Result<Result<T, String>, String>) -> OpRecord {
+        OpRecord { kind, spelled: spelled.to_string(), cpath: cpath.to_string(), arg2: arg2.to_string(), arg3: arg3.to_string(), fs_type: vec![], aux: vec![], access: vec![], created: vec![], modified: vec![], eof: 0, chunks: BTreeMap::new(),
+            result: match res { Ok(Ok(_)) => Ok(()), Ok(Err(e)) => Err(e.clone()), Err(_) => Err("PANIC".to_string()) } }
+    }
+    fn with_fimg(mut self, f: &FileImage) -> OpRecord {
+        self.fs_type = f.fs_type.clone(); self.aux = f.aux.clone(); self.access = f.access.clone(); self.created = f.created.clone(); self.modified = f.modified.clone(); self.eof = f.get_eof();
+        self.chunks = f.chunks.iter().map(|(k, v)| (*k, v.clone())).collect();
+        self
+    }
+}
+
+pub struct World {
+    pub cfg: VolCfg,
+    pub disk: Box<dyn DiskFS>,
+    pub files: BTreeMap<String, RefFile>,
+    pub dirs: BTreeSet<String>,
+    pub chunk_len: usize,
+    pub hist: Vec<String>,
     /// the Lean-side description of the last operation (driver request `fs step …`)
     lean_op: Option<String>,
+    pub last_op: Option<OpRecord>,
     /// Pascal on a flat PO image: the request for the concrete model (driver family `fsp`) describing the last
     /// operation, and — for queries — the answer the real code gave (None: a mutating operation, answer must be `ok`)
     pas_op: Option<(String, Option<String>)>,
@@ -199,9 +230,9 @@ fn err_class(e: &str) -> &'static str {
 }
 
 impl World {
-    fn fs(&self) -> Fs { self.cfg.fs }
+    pub fn fs(&self) -> Fs { self.cfg.fs }
 
-    fn free(&mut self) -> Result<usize, String> { guarded(|| self.disk.stat().map(|s| s.free_blocks).map_err(|e| e.to_string())).and_then(|r| r) }
+    pub fn free(&mut self) -> Result<usize, String> { guarded(|| self.disk.stat().map(|s| s.free_blocks).map_err(|e| e.to_string())).and_then(|r| r) }
 
     /// tree(false) -> set of file paths and set of directory paths
     fn listing(&mut self) -> Result<(BTreeSet<String>, BTreeSet<String>), String> {
@@ -224,7 +255,7 @@ impl World {
         Ok((files, dirs))
     }
 
-    fn get(&mut self, path: &str) -> Result<Result<FileImage, String>, String> {
+    pub fn get(&mut self, path: &str) -> Result<Result<FileImage, String>, String> {
         guarded(|| self.disk.get(path).map_err(|e| e.to_string()))
     }
 
@@ -358,9 +389,9 @@ fn gen_chunk(rng: &mut Rng, len: usize) -> Vec<u8> {
 
 enum Op { Put { path: String, nchunks: usize, holes: bool, last_len: usize, ftype_sel: usize }, Delete(String), Rename(String, String), Lock(String), Unlock(String), Retype(String, usize), Mkdir(String), PutDup(String), RenameOnto(String, String), GetMissing(String), DeleteMissing(String), Protect(String), Unprotect(String) }
 
-struct Verdicts<'a> { out: &'a mut Out, focus: Focus, idx: usize, cfgid: String }
+pub struct Verdicts<'a> { pub out: &'a mut Out, pub focus: Focus, pub idx: usize, pub cfgid: String }
 impl<'a> Verdicts<'a> {
-    fn v(&mut self, owner: Focus, pass: bool, oracle: &str, detail: &str, hist: &[String]) {
+    pub fn v(&mut self, owner: Focus, pass: bool, oracle: &str, detail: &str, hist: &[String]) {
         if owner != self.focus { return; }
         let sig = format!("{}/{}/{}", self.focus.id(), self.cfgid.split('/').next().unwrap_or(""), oracle);
         if pass { self.out.count(&format!("oracle-pass:{}", oracle)); self.out.oracle(true, oracle, &sig, &format!("idx={}", self.idx)); }
@@ -469,6 +500,14 @@ fn post_step(w: &mut World, vd: &mut Verdicts, drv: &mut Option<&mut Drv>, tie: 
                 if let Some((req, expect)) = w.pas_op.take() { pas_tie(d, w, vd, &req, expect, desc); }
                 pas_queries(d, w, vd, desc);
             }
+            if !desc.starts_with("ABORT") && w.cfg.flat {
+                match w.cfg.fs {
+                    Fs::Prodos => super::fs_prodos::after_step(d, w, vd, desc),
+                    Fs::Fat => super::fs_fat::after_step(d, w, vd, desc),
+                    _ => {}
+                }
+            }
+            if !desc.starts_with("ABORT") && w.cfg.fs.is_cpm() { super::fs_cpm::after_step(d, w, vd, desc); }
             if use_dos && !desc.starts_with("ABORT") {
                 if let Some((req, expect)) = w.dos_op.take() { dos_tie(d, w, vd, &req, expect, desc); }
                 dos_queries(d, w, vd, desc);
@@ -485,7 +524,7 @@ fn one_history(ctx: &mut Ctx, focus: Focus, idx: usize, cfg: &VolCfg, steps: usi
         Ok(Err(e)) => { ctx.out.count(&format!("mkvol-error:{}:{}", cfgid, e)); return; }
         Err(p) => { let mut vd = Verdicts { out: &mut ctx.out, focus, idx, cfgid: cfgid.clone() }; vd.panic(&p, "format", &[]); return; }
     };
-    let mut w = World { cfg: cfg.clone(), disk, files: BTreeMap::new(), dirs: BTreeSet::new(), chunk_len: 0, hist: Vec::new(), lean_op: None, pas_op: None, dos_op: None };
+    let mut w = World { cfg: cfg.clone(), disk, files: BTreeMap::new(), dirs: BTreeSet::new(), chunk_len: 0, hist: Vec::new(), lean_op: None, last_op: None, pas_op: None, dos_op: None };
     w.chunk_len = match guarded(|| w.disk.new_fimg(None, false, if cfg.fs.is_cpm() || cfg.fs == Fs::Fat { "A.TXT" } else { "A" })) { Ok(Ok(f)) => f.chunk_len, _ => 512 };
     let mut tie = LeanTie { prev: Vec::new(), opened: false };
     let use_lean = drv.is_some() && (cfg.flat || cfg.fs.is_cpm()) && lean_supported(cfg.fs);
@@ -514,14 +553,14 @@ fn one_history(ctx: &mut Ctx, focus: Focus, idx: usize, cfg: &VolCfg, steps: usi
             let n = free.saturating_sub(overhead + 1).max(1);
             let name = if cfg.fs.is_cpm() || cfg.fs == Fs::Fat { "SOIL.BIN" } else { "SOIL" };
             let op = Op::Put { path: name.to_string(), nchunks: n, holes: false, last_len: w.chunk_len, ftype_sel: 1 };
-            w.lean_op = None; w.pas_op = None; w.dos_op = None;
+            w.lean_op = None; w.last_op = None; w.pas_op = None; w.dos_op = None;
             let d1 = apply_op(&mut w, op, rng, free, &mut vd, &mut nontrivial);
             canon.extend_from_slice(d1.as_bytes());
             if !d1.starts_with("ABORT") { post_step(&mut w, &mut vd, &mut drv, &mut tie, use_lean, use_pas, use_dos, &d1); }
             let cp = canon_path(cfg.fs, name);
             if w.files.contains_key(&cp) {
                 let f2 = w.free().unwrap_or(0);
-                w.lean_op = None; w.pas_op = None; w.dos_op = None;
+                w.lean_op = None; w.last_op = None; w.pas_op = None; w.dos_op = None;
                 let d2 = apply_op(&mut w, Op::Delete(cp), rng, f2, &mut vd, &mut nontrivial);
                 canon.extend_from_slice(d2.as_bytes());
                 if !d2.starts_with("ABORT") { post_step(&mut w, &mut vd, &mut drv, &mut tie, use_lean, use_pas, use_dos, &d2); }
@@ -565,7 +604,7 @@ fn one_history(ctx: &mut Ctx, focus: Focus, idx: usize, cfg: &VolCfg, steps: usi
             }
             _ => choose_op(&mut w, rng, free, focus),
         };
-        w.lean_op = None;
+        w.lean_op = None; w.last_op = None;
         w.pas_op = None;
         w.dos_op = None;
         let desc = apply_op(&mut w, op, rng, free, &mut vd, &mut nontrivial);
@@ -594,7 +633,7 @@ fn one_history(ctx: &mut Ctx, focus: Focus, idx: usize, cfg: &VolCfg, steps: usi
                 let n = (if rounds % 3 == 1 && free > 8 { free / 2 } else { free.saturating_sub(overhead) }).max(1);
                 Op::Put { path: gen_name(cfg.fs, rng, &BTreeSet::new()), nchunks: n, holes: false, last_len: w.chunk_len, ftype_sel: rng.below(64) }
             };
-            w.lean_op = None; w.pas_op = None; w.dos_op = None;
+            w.lean_op = None; w.last_op = None; w.pas_op = None; w.dos_op = None;
             let desc = apply_op(&mut w, op, rng, free, &mut vd, &mut nontrivial);
             canon.extend_from_slice(desc.as_bytes());
             if desc.starts_with("ABORT") { break; }
@@ -605,7 +644,7 @@ fn one_history(ctx: &mut Ctx, focus: Focus, idx: usize, cfg: &VolCfg, steps: usi
                 let names: Vec<String> = w.files.iter().filter(|(_, r)| !r.locked).map(|(k, _)| k.clone()).collect();
                 if names.is_empty() { break; }
                 let f0 = w.free().unwrap_or(0);
-                w.lean_op = None; w.pas_op = None; w.dos_op = None;
+                w.lean_op = None; w.last_op = None; w.pas_op = None; w.dos_op = None;
                 let d = apply_op(&mut w, Op::Delete(names[rng.below(names.len())].clone()), rng, f0, &mut vd, &mut nontrivial);
                 canon.extend_from_slice(d.as_bytes());
                 if d.starts_with("ABORT") { break; }
@@ -671,6 +710,11 @@ fn spell(fs: Fs, cp: &str, rng: &mut Rng) -> String {
     for ch in cp.chars() { if ch.is_ascii_uppercase() && (all || rng.chance(50)) { out.push(ch.to_ascii_lowercase()); } else { out.push(ch); } }
     if fs.is_cpm() && !out.contains(':') && rng.chance(30) { out = format!("0:{}", out); }
     out
+}
+fn clone_fimg(f: &FileImage) -> FileImage {
+    FileImage { fimg_version: f.fimg_version.clone(), file_system: f.file_system.clone(), chunk_len: f.chunk_len, eof: f.eof.clone(), fs_type: f.fs_type.clone(), aux: f.aux.clone(), access: f.access.clone(),
+        accessed: f.accessed.clone(), created: f.created.clone(), modified: f.modified.clone(), version: f.version.clone(), min_version: f.min_version.clone(), full_path: f.full_path.clone(),
+        chunks: f.chunks.iter().map(|(k, v)| (*k, v.clone())).collect() }
 }
 fn hxs(s: &str) -> String { hx(s.as_bytes()) }
 fn type_num(fs: Fs, r: &RefFile) -> (usize, usize) {
@@ -740,6 +784,7 @@ fn apply_op(w: &mut World, op: Op, rng: &mut Rng, free: usize, vd: &mut Verdicts
                 let (ty, aux) = type_num(fs, &r);
                 let cs = if res_tok(&res) == "ok" { r.chunks.iter().map(|(i, c)| format!("{}:{}", i, hx(c))).collect::<Vec<_>>().join(",") } else { "-".to_string() };
                 w.lean_op = Some(format!("put {} {} {} {} {} {}", hxs(&cp), res_tok(&res), r.eof, ty, aux, cs));
+                w.last_op = Some(OpRecord::new("put", &path, &cp, "", "", &res).with_fimg(&fimg));
                 if fs == Fs::Pascal {
                     let okp = res_tok(&res) == "ok";
                     let pcs = r.chunks.iter().map(|(i, c)| if okp { format!("{}:{}", i, hx(c)) } else { format!("{}:-", i) }).collect::<Vec<_>>().join(",");
@@ -795,10 +840,12 @@ fn apply_op(w: &mut World, op: Op, rng: &mut Rng, free: usize, vd: &mut Verdicts
             let sp = spell(fs, &cp, rng);
             let mut pas_args = None;
             let mut dos_args = None;
-            let res = match build_fimg(w, &sp, 1, false, 7, 1, rng) { Ok((f, _)) => { pas_args = Some((f.get_ftype(), f.get_eof())); dos_args = Some(hx(&f.fs_type)); guarded(|| w.disk.put(&f).map_err(|e| e.to_string())) }, Err(e) => Ok(Err(e)) };
+            let mut dup_fimg: Option<FileImage> = None;
+            let res = match build_fimg(w, &sp, 1, false, 7, 1, rng) { Ok((f, _)) => { pas_args = Some((f.get_ftype(), f.get_eof())); dos_args = Some(hx(&f.fs_type)); dup_fimg = Some(clone_fimg(&f)); guarded(|| w.disk.put(&f).map_err(|e| e.to_string())) }, Err(e) => Ok(Err(e)) };
             let d = format!("put-dup {} => {}", sp, match &res { Ok(Ok(_)) => "ok".to_string(), Ok(Err(e)) => format!("err:{}", err_class(e)), Err(_) => "PANIC".to_string() });
             w.hist.push(d.clone());
             w.lean_op = Some(format!("put {} {} 0 0 0 -", hxs(&cp), res_tok(&res)));
+            w.last_op = Some({ let mut o = OpRecord::new("put", &sp, &cp, "", "", &res); if let Some(f) = dup_fimg.as_ref() { o = o.with_fimg(f); } o });
             if let (true, Some(ft)) = (fs.is_dos(), dos_args) { w.dos_op = Some((format!("put {} {} {} 0:-", hxs(&sp), ft, dos_res(&res)), None)); }
             if let (Fs::Pascal, Some((ft, eof))) = (fs, pas_args) { w.pas_op = Some((format!("put {} {} {} {} {} 0:-", hxs(&sp), ft, eof, hx(&pas_date()), pas_res(&res)), None)); }
             match res {
@@ -818,6 +865,7 @@ fn apply_op(w: &mut World, op: Op, rng: &mut Rng, free: usize, vd: &mut Verdicts
             let d = format!("delete {}{} => {}", sp, if locked { "(locked)" } else { "" }, match &res { Ok(Ok(_)) => "ok".to_string(), Ok(Err(e)) => format!("err:{}", err_class(e)), Err(_) => "PANIC".to_string() });
             w.hist.push(d.clone());
             w.lean_op = Some(format!("delete {} {}", hxs(&cp), res_tok(&res)));
+            w.last_op = Some(OpRecord::new("delete", &sp, &cp, "", "", &res));
             if fs == Fs::Pascal { w.pas_op = Some((format!("delete {} {}", hxs(&sp), pas_res(&res)), None)); }
             if fs.is_dos() { w.dos_op = Some((format!("delete {} {}", hxs(&sp), dos_res(&res)), None)); }
             match res {
@@ -848,6 +896,7 @@ fn apply_op(w: &mut World, op: Op, rng: &mut Rng, free: usize, vd: &mut Verdicts
             let d = format!("rename {}{} -> {} => {}", sp, if locked { "(locked)" } else { "" }, newbase_arg, match &res { Ok(Ok(_)) => "ok".to_string(), Ok(Err(e)) => format!("err:{}", err_class(e)), Err(_) => "PANIC".to_string() });
             w.hist.push(d.clone());
             w.lean_op = Some(format!("rename {} {} {}", hxs(&cp), hxs(&target), res_tok(&res)));
+            w.last_op = Some(OpRecord::new("rename", &sp, &cp, &newbase_arg, &target, &res));
             if fs == Fs::Pascal { w.pas_op = Some((format!("rename {} {} {}", hxs(&sp), hxs(&newbase_arg), pas_res(&res)), None)); }
             if fs.is_dos() { w.dos_op = Some((format!("rename {} {} {}", hxs(&sp), hxs(&newbase_arg), dos_res(&res)), None)); }
             match res {
@@ -873,6 +922,7 @@ fn apply_op(w: &mut World, op: Op, rng: &mut Rng, free: usize, vd: &mut Verdicts
             {
                 let tgt = if fs.is_cpm() { canon_path(fs, &nb_arg) } else { match parent_of(&a) { Some(par) => format!("{}/{}", par, nb), None => nb.clone() } };
                 w.lean_op = Some(format!("rename {} {} {}", hxs(&a), hxs(&tgt), res_tok(&res)));
+                w.last_op = Some(OpRecord::new("rename", &a, &a, &nb_arg, &tgt, &res));
                 if fs == Fs::Pascal { w.pas_op = Some((format!("rename {} {} {}", hxs(&a), hxs(&nb_arg), pas_res(&res)), None)); }
                 if fs.is_dos() { w.dos_op = Some((format!("rename {} {} {}", hxs(&a), hxs(&nb_arg), dos_res(&res)), None)); }
             }
@@ -903,6 +953,7 @@ fn apply_op(w: &mut World, op: Op, rng: &mut Rng, free: usize, vd: &mut Verdicts
             let d = format!("retype {} {} {} => {}", cp, typ, sub, match &res { Ok(Ok(_)) => "ok".to_string(), Ok(Err(e)) => format!("err:{}", err_class(e)), Err(_) => "PANIC".to_string() });
             w.hist.push(d.clone());
             w.lean_op = Some(format!("retype {} {}", hxs(&cp), res_tok(&res)));
+            w.last_op = Some(OpRecord::new("retype", &cp, &cp, &typ, &sub, &res));
             if fs.is_dos() { let code = match typ.as_str() { "txt" => "0", "itok" => "1", "atok" => "2", "bin" => "4", _ => "none" }; w.dos_op = Some((format!("retype {} {} {}", hxs(&cp), code, dos_res(&res)), None)); }
             if fs == Fs::Pascal { let code = match typ.as_str() { "txt" => "3", "bin" => "5", "pcode" => "2", _ => "none" }; w.pas_op = Some((format!("retype {} {} {}", hxs(&cp), code, pas_res(&res)), None)); }
             match res {
@@ -924,6 +975,7 @@ fn apply_op(w: &mut World, op: Op, rng: &mut Rng, free: usize, vd: &mut Verdicts
             let d = format!("mkdir {} => {}", p, match &res { Ok(Ok(_)) => "ok".to_string(), Ok(Err(e)) => format!("err:{}", err_class(e)), Err(_) => "PANIC".to_string() });
             w.hist.push(d.clone());
             w.lean_op = Some(format!("mkdir {} {}", hxs(&cp), res_tok(&res)));
+            w.last_op = Some(OpRecord::new("mkdir", &p, &cp, "", "", &res));
             match res {
                 Err(pn) => { vd.panic(&pn, "mkdir", &w.hist.clone()); return format!("ABORT {}", d); }
                 Ok(Ok(_)) => { if dup { vd.v(Focus::C05, false, "duplicate-mkdir-refused", &format!("mkdir onto existing {}", cp), &w.hist.clone()); return format!("ABORT {}", d); } w.dirs.insert(cp); }
@@ -960,11 +1012,13 @@ fn apply_op(w: &mut World, op: Op, rng: &mut Rng, free: usize, vd: &mut Verdicts
 /// file; the step is a `retype`-like operation of the spec: content kept, every other record unchanged)
 fn protect_op(w: &mut World, cp: String, protect: bool, vd: &mut Verdicts, rng: &mut Rng) -> String {
     let sp = spell(w.fs(), &cp, rng);
-    let res = if protect { let (r, wr, d) = (rng.chance(50), rng.chance(50), true); guarded(|| w.disk.protect(&sp, "SECRET", r, wr, d).map_err(|e| e.to_string())) }
+    let (pr, pw, pd) = (rng.chance(50), rng.chance(50), true);
+    let res = if protect { guarded(|| w.disk.protect(&sp, "SECRET", pr, pw, pd).map_err(|e| e.to_string())) }
         else { guarded(|| w.disk.unprotect(&sp).map_err(|e| e.to_string())) };
     let d = format!("{} {} => {}", if protect { "protect" } else { "unprotect" }, sp, match &res { Ok(Ok(_)) => "ok".to_string(), Ok(Err(e)) => format!("err:{}", err_class(e)), Err(_) => "PANIC".to_string() });
     w.hist.push(d.clone());
     w.lean_op = Some(format!("retype {} {}", hxs(&cp), res_tok(&res)));
+    w.last_op = Some(OpRecord::new(if protect { "protect" } else { "unprotect" }, &sp, &cp, &format!("SECRET {} {} {}", pr, pw, pd), "", &res));
     if let Err(p) = res { vd.panic(&p, "protect", &w.hist.clone()); return format!("ABORT {}", d); }
     d
 }
@@ -977,6 +1031,7 @@ fn toggle_lock(w: &mut World, cp: String, vd: &mut Verdicts, rng: &mut Rng) -> S
     let d = format!("{} {} => {}", if was { "unlock" } else { "lock" }, sp, match &res { Ok(Ok(_)) => "ok".to_string(), Ok(Err(e)) => format!("err:{}", err_class(e)), Err(_) => "PANIC".to_string() });
     w.hist.push(d.clone());
     w.lean_op = Some(format!("{} {} {}", if was { "unlock" } else { "lock" }, hxs(&cp), res_tok(&res)));
+    w.last_op = Some(OpRecord::new(if was { "unlock" } else { "lock" }, &sp, &cp, "", "", &res));
     if w.fs().is_dos() { w.dos_op = Some((format!("{} {} {}", if was { "unlock" } else { "lock" }, hxs(&sp), dos_res(&res)), None)); }
     match res {
         Err(p) => { vd.panic(&p, "lock", &w.hist.clone()); return format!("ABORT {}", d); }
